@@ -185,7 +185,14 @@ def r4_limit_provenance(ctx):
     R.check(not per_conn, "C11.R4", "guard-not-per-connection", "the guard is shared by all connections", "a ConnectionGuard is created per connection in %s" % [fkey(c.body) for c in per_conn], None)
 
 
-RULES = [r1_gate, r2_hold_until_done, r3_no_forget, r4_limit_provenance]
+
+def rcfg_config_verbatim(ctx):
+    """the configured `max_connections` reaches the ServerConfig unchanged (setter stores its argument, build()/Clone copy it)"""
+    from .common import config_field_integrity
+    config_field_integrity(ctx, "C11.CFG", "max_connections")
+
+
+RULES = [r1_gate, r2_hold_until_done, r3_no_forget, r4_limit_provenance, rcfg_config_verbatim]
 
 LEVEL_TEXT = (
     "Structural necessary conditions of the connection cap decided from the type-checked program: the acquire arm "
